@@ -95,6 +95,19 @@ impl Next<f64> for WeightedMovingAverage {
             self.sum = self.sum - self.sum_flat + (input * self.weight);
         }
         self.sum_flat = self.sum_flat - old_val + input;
+
+        // Once per `period` inputs (when the cursor wraps) rebuild both running sums from
+        // the window itself. The rounding error of `sum_flat` is otherwise added into `sum`
+        // on every step and grows without bound over long streams.
+        if self.index == 0 && self.count == self.period {
+            self.sum_flat = 0.0;
+            self.sum = 0.0;
+            for (i, &value) in self.deque.iter().enumerate() {
+                self.sum_flat += value;
+                self.sum += value * (i + 1) as f64;
+            }
+        }
+
         self.sum / (self.weight * (self.weight + 1.0) / 2.0)
     }
 }
